@@ -5,6 +5,12 @@ falls back to a sequential loop there, which would make the n_jobs relation vacu
 {"model": catalogue name, "cohorts": [[ids...]...], "n_jobs": [1, 2, ...]} and prints one line
 ``C07NJOBS {"effective": {n_jobs: workers joblib will use}, "results": {n_jobs: [ {order, params{id:{var:[...]}}} | {exc} ]}}``.
 All the runs of one n_jobs value are grouped so that the worker pool is started once per value.
+
+When LMC_SCIPY_RECORD names a file (set by the parent together with lmc/site_hooks on PYTHONPATH) every call of
+``scipy.optimize.minimize`` - in this interpreter or in a joblib worker - appends its start point and result there; this
+program writes a marker line before each public call so that the parent can group the records:  each result then carries
+``"starts": [{patient_id, x0, x, fun, pid}, ...]``.  Every cohort is personalised twice in a row with each n_jobs value
+(``"again"``: the second answer), the second time with a worker pool that has already served.
 """
 
 from __future__ import annotations
@@ -31,26 +37,63 @@ def main():
     from lmc.models import MODEL_SPECS, build_model
     from lmc.props.c07 import cohort_dataset
 
+    import os
+
+    rec_path = os.environ.get("LMC_SCIPY_RECORD")
+
+    def mark(tag):
+        if rec_path:
+            with open(rec_path, "a") as f:
+                f.write(json.dumps({"marker": tag}) + "\n")
+
+    def one_call(model, ds, nj):
+        with contextlib.redirect_stdout(io.StringIO()):
+            ip = model.personalize(ds, "scipy_minimize", progress_bar=False, seed=0, n_jobs=nj)
+        order, pyt = ip.to_pytorch()
+        order = [str(x) for x in order]
+        # python floats of float32 values: exact through JSON
+        params = {i: {p: v[k].reshape(-1).tolist() for p, v in pyt.items()} for k, i in enumerate(order)}
+        return {"order": order, "params": params}
+
     req = json.loads(sys.stdin.read())
     spec = MODEL_SPECS[req["model"]]
     out = {"effective": {}, "results": {}}
     for nj in req["n_jobs"]:
         out["effective"][str(nj)] = int(joblib.effective_n_jobs(nj))
         res = []
-        for ids in req["cohorts"]:
+        for c, ids in enumerate(req["cohorts"]):
             model = build_model(spec)
             ds = cohort_dataset(spec, ids, {})
             try:
-                with contextlib.redirect_stdout(io.StringIO()):
-                    ip = model.personalize(ds, "scipy_minimize", progress_bar=False, seed=0, n_jobs=nj)
-                order, pyt = ip.to_pytorch()
-                order = [str(x) for x in order]
-                # python floats of float32 values: exact through JSON
-                params = {i: {p: v[k].reshape(-1).tolist() for p, v in pyt.items()} for k, i in enumerate(order)}
-                res.append({"order": order, "params": params})
+                mark([nj, c, 0])
+                r = one_call(model, ds, nj)
+                mark([nj, c, 1])
+                try:
+                    r["again"] = one_call(build_model(spec), cohort_dataset(spec, ids, {}), nj)
+                except Exception as e:
+                    r["again"] = {"exc": [type(e).__name__, str(e)[:300]]}
+                res.append(r)
             except Exception as e:  # implementation failure: judged by the parent
                 res.append({"exc": [type(e).__name__, str(e)[:300]]})
         out["results"][str(nj)] = res
+    mark("end")
+    if rec_path:
+        groups, cur = {}, None
+        for line in open(rec_path):
+            d = json.loads(line)
+            if "marker" in d:
+                cur = None if d["marker"] == "end" else tuple(d["marker"])
+                if cur is not None:
+                    groups[cur] = []
+            elif cur is not None:
+                groups[cur].append(d)
+        for nj in req["n_jobs"]:
+            for c in range(len(req["cohorts"])):
+                r = out["results"][str(nj)][c]
+                r["starts"] = groups.get((nj, c, 0), [])
+                if isinstance(r.get("again"), dict):
+                    r["again"]["starts"] = groups.get((nj, c, 1), [])
+    out["recording"] = bool(rec_path)
     print("C07NJOBS " + json.dumps(out))
     return 0
 
